@@ -97,12 +97,21 @@ def nodes(c, budget=MAX_NODES + 1):
     return n
 
 
+MAX_DEPTH = 8
+
+
+def depth(c, budget=MAX_DEPTH + 1):
+    if c[0] != 'l' or budget <= 0:
+        return 0
+    return 1 + max([depth(e, budget - 1) for e in c[1]] or [0])
+
+
 def call(ap, f, *args):
     args = [norm(plain(a)) for a in args]
     r = norm(plain(f(*args))) if callable(f) else norm(ap(f, *args))
-    if nodes(r) > MAX_NODES:
-        # an expansion whose values keep growing ({x,x}:~a) is treated like one that does not terminate
-        raise NonTerminating('value with more than %d nodes' % MAX_NODES)
+    if nodes(r) > MAX_NODES or depth(r) > MAX_DEPTH:
+        # an expansion whose values keep growing ({x,x}:~a, ,:~a) is treated like one that does not terminate
+        raise NonTerminating('value with more than %d nodes or nested deeper than %d' % (MAX_NODES, MAX_DEPTH))
     return r
 
 
@@ -425,8 +434,26 @@ def same(e, g):
     return close(chars_to_string(norm(e)), chars_to_string(norm(g)), rtol=1e-12)
 
 
-def accepts(expected, got):
-    """expected: a model result; got: canonical result of the implementation."""
+def _loosen(c):
+    """Forget what the reference's accept sets leave free: integer vs real kind of a number, "" vs []."""
+    t = c[0]
+    if t == 'i':
+        return ('r', float(c[1]))
+    if t == 's' and c[1] == '':
+        return ('l', ())
+    if t == 'l':
+        return ('l', tuple(_loosen(e) for e in c[1]))
+    return c
+
+
+def accepts(expected, got, loose=False):
+    """expected: a model result; got: canonical result of the implementation.  loose: used only when a plain application
+    of the expansion had an accept set in the reference (kind of an integral Power, of a mixed Min/Max, [] vs "")."""
+    if loose:
+        def same(e, g):     # noqa: F811
+            return close(_loosen(chars_to_string(norm(e))), _loosen(chars_to_string(norm(g))), rtol=1e-12)
+    else:
+        same = globals()['same']
     if expected[0] == 'alt':
         return any(same(e, got) for e in expected[1])
     if expected[0] == 'bag':
